@@ -143,7 +143,7 @@ MAX_TRACE_LINES = 400000
 MAX_ID_PACKETS = 3000     # packet identities are logged for runs with at most this many packets
 
 
-def run_config(binary, c, threads, jitter=None, trace=True, timeout=60):
+def run_config(binary, c, threads, jitter=None, trace=True, timeout=60, noserial=False):
     d = tempfile.mkdtemp(prefix="verif_c01_")
     if jitter and JITTER_LIB[0] is None:
         JITTER_LIB[0] = jitter_lib()
@@ -159,6 +159,8 @@ def run_config(binary, c, threads, jitter=None, trace=True, timeout=60):
         tr = os.path.join(d, "trace.txt")
         if trace:
             env["CMAC_VERIF_TRACE"] = tr
+            if noserial:
+                env["CMAC_VERIF_NOSERIAL"] = "1"
             if c["N"] <= MAX_ID_PACKETS:
                 env["CMAC_VERIF_PACKET_IDS"] = "1"
         if c.get("rhd"):
@@ -425,8 +427,9 @@ def identity_oracles(it):
     return bad
 
 
-def iteration_ops(E, it):
-    """one iteration of the trace -> (op lines for the Lean driver, expected answers)"""
+def iteration_ops(E, it, noserial=False):
+    """one iteration of the trace -> (op lines for the Lean driver, expected answers).
+    noserial: the trace was written without the trace mutex (CMAC_VERIF_NOSERIAL=1), see the assumptions text"""
     ops, exp = [], []
 
     def op(o, e):
@@ -455,7 +458,7 @@ def iteration_ops(E, it):
             maxb, maxt = max(maxb, v[4]), max(maxt, v[5])
         elif k == "PP":
             maxt = max(maxt, v[4])
-    op("cfg %d %d %d %d %d %d %d %d" % (N, len(srcs), norig, nblocks, reem, maxb + 1, maxt + 1, nsub), "cfg ok")
+    op("cfg %d %d %d %d %d %d %d %d" % (N, len(srcs), norig, nblocks, reem, maxb + 3, maxt + 1, nsub), "cfg ok")
     for (k, v) in ev:
         if k == "PG":
             op("ngb " + " ".join(str(x) for x in v), "ngb ok")
@@ -473,7 +476,20 @@ def iteration_ops(E, it):
     kname = {E["TASKTYPE_SOURCE_DISCRETE_PHOTON"]: "source", E["TASKTYPE_SOURCE_CONTINUOUS_PHOTON"]: "contsource",
              E["TASKTYPE_PHOTON_TRAVERSAL"]: "traverse", E["TASKTYPE_PHOTON_REEMIT"]: "reemit",
              E["TASKTYPE_FLUSH_CONTINUOUS_PHOTON_BUFFERS"]: "flush"}
-    for (k, v) in ev:
+    pulled = set()
+    nterm = [0]
+
+    def emit_pc(v):
+        th, blk, n, left = v[:4]
+        sizes = v[4:]
+        fl = [r[1][1] for r in acc.get(th, []) if r[0] == "PK"]
+        # non-serialised: `left` is a separate (racy) read of the counter, not compared
+        op("cfin %d %s | %s" % (cur.get(th, -1), " ".join(str(x) for x in sizes), " ".join(str(x) for x in fl)),
+           "cfin left=%s flush=%d" % ("*" if noserial else str(left), len(fl)))
+        acc[th] = []
+    for idx, (k, v) in enumerate(ev):
+        if idx in pulled:
+            continue
         if k == "PT":
             if v[1] == E["TASKTYPE_SOURCE_DISCRETE_PHOTON"]:
                 op("launch %d %d" % (v[0], v[2]), "launch source %d %d queued" % (v[2], v[3]))
@@ -515,7 +531,10 @@ def iteration_ops(E, it):
                 nt = -1
                 if j + 1 < len(recs) and recs[j + 1][0] == "PK":
                     nt = recs[j + 1][1][1]
-                dirs.append("%d:%d:%d:%d:%d" % (i, out, newact.get(i, -1), add if add != new else -1, nt))
+                nbid = (add if add != new else -1)
+                if noserial and add != new and sadd == 0:
+                    nbid = -2     # taken and released inside the commit: any buffer that is free in the model
+                dirs.append("%d:%d:%d:%d:%d" % (i, out, newact.get(i, -1), nbid, nt))
                 per.append("d%d=%d,%s" % (i, snew, str(sadd) if add != new else "-"))
             q = qst.pop(th, {})
             if "QI" in q and "QF" in q:
@@ -543,12 +562,16 @@ def iteration_ops(E, it):
             op("cover %d %d %d %d" % (cur.get(th, -1), g, bid, t2), "cover buf=%d task=traverse %d %d queued" % (bufsz, g, bid))
             qbind(th, bid)
         elif k == "PC":
-            th, blk, n, left = v[:4]
-            sizes = v[4:]
-            fl = [r[1][1] for r in acc.get(th, []) if r[0] == "PK"]
-            op("cfin %d %s | %s" % (cur.get(th, -1), " ".join(str(x) for x in sizes), " ".join(str(x) for x in fl)),
-               "cfin left=%d flush=%d" % (left, len(fl)))
-            acc[th] = []
+            if noserial and any(r[0] == "PK" for r in acc.get(v[0], [])):
+                # this task saw the counter at zero and creates the flush tasks: every other continuous source task
+                # has done its subtraction before (only its record may come later) -> their commits come first
+                for j in range(idx + 1, len(ev)):
+                    if ev[j][0] == "PC" and j not in pulled and ev[j][1][0] != v[0]:
+                        pulled.add(j)
+                        emit_pc(ev[j][1])
+                    elif ev[j][0] == "PE":
+                        break
+            emit_pc(v)
         elif k == "PL":
             th, blk, g, cnt, bid, t2, q = v
             op("fone %d %d %d %d" % (cur.get(th, -1), g, bid, t2), "fone buf=%d task=traverse %d %d queued" % (cnt, g, bid))
@@ -561,9 +584,15 @@ def iteration_ops(E, it):
         elif k == "PM":
             op("largest %d" % v[0], "largest %d %d" % (v[1], v[2]))
         elif k == "PZ":
-            op("term", "term ok")
+            if noserial:
+                # the two reads of the termination test are not one action: the flag write is replayed at the end
+                nterm[0] += 1
+            else:
+                op("term", "term ok")
         elif k == "PE":
             _, req, pdone, nbuf, ntask, sq, tq, nact, ncb = v
+            for _ in range(nterm[0]):
+                op("term", "term ok")
             op("end", "end done=%d bufs=%d tasks=%d queued=%d active=%d cont=%d src=0 run=0 once=ok" % (pdone, nbuf, ntask, sq + tq, nact, ncb))
     return ops, exp
 
@@ -572,6 +601,8 @@ def model_answer_matches(model, expected):
     m = " ".join(vlib.strip_branch(model).split())
     if expected == "enq":
         return m.startswith("enq ") and m.endswith(" queued")
+    if expected.startswith("cfin left=*"):
+        return re.sub(r"left=\d+", "left=*", m) == expected
     if expected == "acq-by-exiting-thread":
         return m.startswith("acq ") and m.endswith(" running")
     return m == expected
@@ -714,29 +745,33 @@ def dps_stream(ctx, harness):
 
 JITTERS_TRACE = ["verif_lock=300=2000,cas_lock=20=1500", "verif_lock=600=3000,cas_lock=40=2500,cas_unlock=10=500",
                  "verif_lock=150=800,post_increment=100=300,pre_add=300=1500"]
+JITTERS_NOSERIAL = ["verif_lock=300=1500,cas_lock=20=1500,pre_add=200=800", "verif_lock=500=2500,cas_lock=30=2000,cas_unlock=10=500,load=2=300",
+                    "verif_lock=200=1000,pre_add=400=1500,pre_subtract=500=2000,post_increment=100=300,load=1=200"]
 JITTERS_PLAIN = ["pre_subtract=1000=3000,cas_lock=30=4000", "pre_subtract=700=2000,cas_lock=60=2000,cas_unlock=20=1000",
                  "pre_add=500=2000,cas_lock=40=3000,pre_subtract=500=1500"]
 
 
-def describe(c, threads, jitter):
+def describe(c, threads, jitter, noserial=False):
     return "%s%s subgrids %s periodic %s N=%d iterations=%d copy level %d diffuse=%s threads=%d%s" % (
         "RHD " if c.get("rhd") else "", c.get("mode"), "x".join(str(x) for x in c["layout"]), "".join("ty"[0] if p else "n" for p in c["per"]), c["N"], c.get("iters", 2),
-        c.get("copy", 0), c.get("diffuse"), threads, " jitter=" + jitter if jitter else "")
+        c.get("copy", 0), c.get("diffuse"), threads, (" jitter=" + jitter if jitter else "") + (" non-serialised trace" if noserial else ""))
 
 
 def run_and_check(ctx, E, binary, job, drv_jobs):
     """job = dict(cfg, threads, jitter (or None), trace (bool)); returns nothing, records into ctx"""
     c, threads, jitter, trace = job["cfg"], job["threads"], job.get("jitter"), job.get("trace", True)
+    noserial = bool(job.get("noserial"))
     res = job["res"]
-    rep = {"config": c, "threads": threads, "jitter": jitter, "trace_on": trace, "param": rhd_param(c) if c.get("rhd") else ion_param(c),
+    rep = {"config": c, "threads": threads, "jitter": jitter, "trace_on": trace, "noserial": noserial, "param": rhd_param(c) if c.get("rhd") else ion_param(c),
            "sources_yml": sources_yml(c["sources"]) if len(c.get("sources", [])) > 1 else None,
-           "cmd": "%sCMacIonize --params run.param %s --threads %d" % (("LD_PRELOAD=libc01_jitter.so CMAC_VERIF_JITTER=%s " % jitter) if jitter else "",
+           "cmd": "%s%sCMacIonize --params run.param %s --threads %d" % ("CMAC_VERIF_NOSERIAL=1 " if noserial else "", ("LD_PRELOAD=libc01_jitter.so CMAC_VERIF_JITTER=%s " % jitter) if jitter else "",
                                                                    "--task-based-rhd --number-of-steps 1" if c.get("rhd") else "--task-based", threads)}
     ctx.count()
-    stream = "jitter" if jitter else "photon"
+    stream = "noserial" if noserial else ("jitter" if jitter else "photon")
+    rep["stream"] = stream
     st = ctx.cov["correspondence_streams"].setdefault(stream, {"runs": 0, "lines": 0, "mismatches": 0, "oracle_failures": 0})
     st["runs"] += 1
-    what = describe(c, threads, jitter)
+    what = describe(c, threads, jitter, noserial)
     if res["timed_out"]:
         its = split_iterations(res["trace"])
         ctx.violation("photon:run-hangs", "the run did not finish within %d s (%s); %d iterations started; last log line: %s"
@@ -748,7 +783,7 @@ def run_and_check(ctx, E, binary, job, drv_jobs):
             for (key, text) in bad[:3]:
                 ctx.violation(key, "%s (%s, run later hangs)" % (text, what), dict(rep, trace=[" ".join([k] + [str(x) for x in v]) for (k, v) in it["events"] if k != "PG"][:3000]))
             if trace and not bad:
-                ops, exp = iteration_ops(E, it)
+                ops, exp = iteration_ops(E, it, noserial)
                 drv_jobs.append((ops, exp, rep, what, it["PI"][0], False))
         return
     if res["rc"] != 0:
@@ -764,7 +799,7 @@ def run_and_check(ctx, E, binary, job, drv_jobs):
     if len(its) != c.get("iters", 2):
         ctx.broken_obligation("photon trace of %s has %d iterations, expected %d (hook H2 missing?)" % (what, len(its), c.get("iters", 2)), res["log"][-400:])
         return
-    ctx.distinct((tuple(c["layout"]), tuple(c["per"]), c["N"], c.get("copy", 0), c.get("mode"), bool(c.get("diffuse")), threads, jitter),
+    ctx.distinct((tuple(c["layout"]), tuple(c["per"]), c["N"], c.get("copy", 0), c.get("mode"), bool(c.get("diffuse")), threads, jitter, noserial),
                  nontrivial=(c["layout"] != (1, 1, 1) or c.get("diffuse") or c["N"] > 200))
     for it in its:
         bad = trace_oracles(E, it) + identity_oracles(it)
@@ -774,7 +809,7 @@ def run_and_check(ctx, E, binary, job, drv_jobs):
         for (key, text) in bad[:4]:
             st["oracle_failures"] += 1
             ctx.violation(key, "%s (%s)" % (text, what), dict(rep, trace=[" ".join([k] + [str(x) for x in v]) for (k, v) in it["events"] if k != "PG"][:3000]))
-        ops, exp = iteration_ops(E, it)
+        ops, exp = iteration_ops(E, it, noserial)
         only_leak = bool(bad) and all(k == "photon:rhd-task-slots-left-behind" for (k, _) in bad)
         if only_leak:
             # the leaked slots do not disturb the protocol: replay everything, compare the end record without its task count
@@ -799,7 +834,7 @@ def replay_traces(ctx, drv_jobs):
         ctx.broken_obligation("Lean driver drv_c01 failed (rc %d): %s" % (rc, err[-300:]))
     pos = 0
     for (ops, exp, rep, what, iloop, dirty) in drv_jobs:
-        st = ctx.cov["correspondence_streams"]["jitter" if rep["jitter"] else "photon"]
+        st = ctx.cov["correspondence_streams"][rep.get("stream", "photon")]
         st["lines"] += len(ops)
         for i in range(len(ops)):
             m = model[pos + i] if pos + i < len(model) else "<missing>"
@@ -877,13 +912,22 @@ def make_jobs(ctx):
         jobs.append(dict(cfg=c, threads=ctx.rng.choice([1, 2, 4, 8]), jitter=None))
     # seeded scheduling jitter, traced (replayed through the model) ...
     one = dict(layout=(1, 1, 1), per=(False, False, False), copy=0, sources=[], continuous=True, diffuse=False, density="0.02", seed=7, mode="continuous")
-    for k in range(ctx.budget(10, 80)):
+    # ... traced WITHOUT the trace mutex (CMAC_VERIF_NOSERIAL=1: the commit regions of the hooked code are not serialised,
+    # only single log lines are atomic): the interleavings of the unhooked bookkeeping, still replayed through the model
+    for k in range(ctx.budget(9, 90)):
+        c = dict(one, N=ctx.rng.choice([200, 400, 600, 201, 1000]), iters=2) if k % 3 == 0 else random_config(ctx.rng)
+        if k % 3 != 0:
+            calm(c)
+            if k % 3 == 2:
+                c["diffuse"] = True
+        jobs.append(dict(cfg=c, threads=ctx.rng.choice([4, 8, 16]), jitter="%d:%s" % (ctx.rng.randrange(1, 10 ** 6), ctx.rng.choice(JITTERS_NOSERIAL)), noserial=True))
+    for k in range(ctx.budget(5, 60)):
         c = dict(one, N=ctx.rng.choice([200, 200, 400, 600, 201]), iters=3) if k % 2 == 0 else random_config(ctx.rng)
         if k % 2 == 1:
             calm(c)
         jobs.append(dict(cfg=c, threads=ctx.rng.choice([2, 4, 4, 8]), jitter="%d:%s" % (ctx.rng.randrange(1, 10 ** 6), ctx.rng.choice(JITTERS_TRACE))))
     # ... and untraced (the trace mutex is not taken: the interleavings of the unhooked code)
-    for k in range(ctx.budget(12, 100)):
+    for k in range(ctx.budget(9, 100)):
         c = dict(one, N=ctx.rng.choice([200, 200, 400, 800]), iters=3) if k % 3 != 2 else random_config(ctx.rng)
         if k % 3 == 2:
             calm(c)
@@ -930,7 +974,8 @@ def run(ctx):
 
     def work(j):
         try:
-            return run_config(binary, j["cfg"], j["threads"], jitter=j.get("jitter"), trace=j.get("trace", True), timeout=j["timeout"])
+            return run_config(binary, j["cfg"], j["threads"], jitter=j.get("jitter"), trace=j.get("trace", True), timeout=j["timeout"],
+                              noserial=bool(j.get("noserial")))
         except Exception as e:  # noqa
             return dict(rc=-1, timed_out=False, log="run failed to start: %r" % (e,), trace=[], diagnostics=[])
     drv_jobs = []
@@ -980,7 +1025,7 @@ def replay(ctx, path):
         jit = obj.get("jitter")
         if jit and k > 0:   # schedule dependent: vary the jitter seed
             jit = "%d:%s" % (int(jit.split(":")[0]) + k, jit.split(":", 1)[1])
-        res = run_config(binary, c, obj.get("threads", 1), jitter=jit, trace=obj.get("trace_on", True), timeout=90)
+        res = run_config(binary, c, obj.get("threads", 1), jitter=jit, trace=obj.get("trace_on", True), timeout=90, noserial=bool(obj.get("noserial")))
         bad = []
         if res["timed_out"]:
             bad = [("photon:run-hangs", "run did not finish")]
@@ -988,7 +1033,7 @@ def replay(ctx, path):
             bad = [("photon:run-failed", "exit status %d" % res["rc"])]
         else:
             for it in split_iterations(res["trace"]):
-                bad += trace_oracles(E, it)
+                bad += trace_oracles(E, it) + identity_oracles(it)
         print("try %d (jitter %s): %s" % (k, jit, bad[:3] if bad else "clean"))
         if bad:
             print("REPRODUCED")
